@@ -632,6 +632,76 @@ func (f *facts) flowTables(conn, tr *ast.File) string {
 			map[string]bool{"leave-loop": true, "next-iteration": true}, classify, effect)
 		emit("transportConnectFlow", rows, unk)
 	}
+	// the idle stack of a connGroup: releaseConn, grabConn, removeConn, closeIdleConns
+	poolEffect := func(n ast.Node) string {
+		switch x := n.(type) {
+		case *ast.CallExpr:
+			p := selPath(x.Fun)
+			switch {
+			case strings.HasSuffix(p, ".mutex.Lock"):
+				return "lock"
+			case strings.HasSuffix(p, ".mutex.Unlock"):
+				return "unlock"
+			case strings.HasSuffix(p, ".close"):
+				return "closeConn"
+			}
+		case *ast.AssignStmt:
+			if len(x.Lhs) == 1 && len(x.Rhs) == 1 && strings.HasSuffix(src(f.fset, x.Lhs[0]), ".idleConns") {
+				r := src(f.fset, x.Rhs[0])
+				switch {
+				case strings.HasPrefix(r, "append("):
+					return "push"
+				case r == "nil":
+					return "clearIdle"
+				case strings.Contains(r, "[:"):
+					return "pop"
+				}
+			}
+			if len(x.Lhs) == 1 && strings.HasSuffix(src(f.fset, x.Lhs[0]), ".closed") && src(f.fset, x.Rhs[0]) == "true" {
+				return "markClosed"
+			}
+		case *ast.ReturnStmt:
+			if len(x.Results) == 1 {
+				switch r := src(f.fset, x.Results[0]); r {
+				case "true", "false", "nil":
+					return "return:" + r
+				default:
+					return "return:conn"
+				}
+			}
+		}
+		return ""
+	}
+	poolClassify := func(e ast.Expr) string {
+		t := src(f.fset, e)
+		switch {
+		case strings.HasSuffix(t, ".closed"):
+			return "groupClosed"
+		case strings.HasSuffix(t, ".timer != nil"):
+			return "hasTimer"
+		case strings.HasPrefix(t, "len(") && strings.HasSuffix(t, ".idleConns) == 0"):
+			return "idleEmpty"
+		}
+		if bx, ok := e.(*ast.BinaryExpr); ok && bx.Op == token.EQL {
+			if _, isID := bx.X.(*ast.Ident); isID {
+				if _, isID2 := bx.Y.(*ast.Ident); isID2 {
+					return "isThisConn"
+				}
+			}
+		}
+		return ""
+	}
+	for _, fn := range []struct {
+		name  string
+		preds []string
+	}{{"releaseConn", []string{"groupClosed", "hasTimer"}}, {"grabConn", []string{"idleEmpty", "hasTimer"}},
+		{"removeConn", []string{"hasTimer", "isThisConn"}}, {"closeIdleConns", nil}} {
+		if fd := findFunc(tr, "connGroup", fn.name); fd != nil {
+			rows, unk := f.runScenariosFixed(fd, fn.preds, nil, map[string]bool{"leave-loop": true, "next-iteration": true}, poolClassify, poolEffect)
+			emit(fn.name+"Flow", rows, unk)
+		}
+	}
+
 	// (*Conn).saslAuthenticate: raw versus framed, and every way the un-framed exchange can fail
 	if fd := findFunc(conn, "Conn", "saslAuthenticate"); fd != nil {
 		last = ""
